@@ -481,12 +481,13 @@ class ModuleVistor(NodeVisitor):
             if isinstance(target_obj, model.Function):
 
                 # _handleOldSchoolMethodDecoration must only be called in a class scope.
-                assert target_obj.kind is model.DocumentableKind.METHOD
-
-                if func_name == 'staticmethod':
-                    target_obj.kind = model.DocumentableKind.STATIC_METHOD
-                elif func_name == 'classmethod':
-                    target_obj.kind = model.DocumentableKind.CLASS_METHOD
+                # The method might already have been wrapped by an earlier assignment,
+                # in which case it keeps its kind.
+                if target_obj.kind is model.DocumentableKind.METHOD:
+                    if func_name == 'staticmethod':
+                        target_obj.kind = model.DocumentableKind.STATIC_METHOD
+                    elif func_name == 'classmethod':
+                        target_obj.kind = model.DocumentableKind.CLASS_METHOD
                 return True
         return False
 
